@@ -1098,17 +1098,18 @@ def main():
             c.M = {}
             for nm, ce in c.A.items():
                 l = [x for n_, x in c.order if n_ == nm][0]
-                if " meta=1" in l or " frag=0" not in l:
-                    continue
+                ismeta = " meta=1" in l
+                if " frag=0" not in l or (ismeta and (std < 7 or perm)):
+                    continue        # Standards Version 6 writes metafields with the META directive (not modelled)
                 # the entry as it was added (gd_entry normalises a CONST's scalar index to -1)
                 if nm in given and normalise(given[nm], idx=True) == normalise(ce, idx=True):
                     ce = given[nm]
                 c.M[nm] = ce
                 jobs.append((c, "P", nm))
-                dq.append("P %d %d %d %d %d %s" % (std, perm, 1 if c.pretty else 0, maxlen, P, ce))
+                dq.append("P %d %d %d %d %d %s" % (std, perm, 1 if c.pretty else 0, 0 if ismeta else maxlen, P, ce))
             body = strip_header(r_["text"][0])
             for ln in body:
-                if ln and not ln.startswith(b"/") and not ln.startswith(b"#") and not ln.startswith(b"META ") and b"/" not in first_token_raw(ln):
+                if ln and not ln.startswith(b"/") and not ln.startswith(b"#") and not ln.startswith(b"META ") and (b"/" not in first_token_raw(ln) or (std >= 7 and not perm)):
                     jobs.append((c, "L", ln))
                     dq.append("L %d %d %s" % (10 if perm else std, 0 if perm else 1, hx(ln + b"\n")))
     # fragment-level lines: header, /INCLUDE, /HIDDEN, /ALIAS (writer and reader model)
@@ -1330,6 +1331,8 @@ def main():
             t = pr.split(" ", 1)
             mtext = unhx(t[0]) if not t[0].startswith("FAIL") else None
             kinds_seen[ce.split()[0]] = kinds_seen.get(ce.split()[0], 0) + 1
+            if b"/" in (unhx(nm) or b""):
+                kinds_seen["(metafield lines)"] = kinds_seen.get("(metafield lines)", 0) + 1
             n_text += 1
             if mtext is None or not mtext.endswith(b"\n") or mtext[:-1] not in bodyset:
                 near = [l for l in body if l.startswith((mtext or b"")[:max(3, len(unhx(nm) or b""))])][:1]
@@ -1374,7 +1377,7 @@ def main():
                     viol("model/parse/name", "correspondence broken (reader): model parses line %r as field %s, the library has no such field" % (ln[:200], nm),
                                   dict(replay, correspondence="parse_line", line=ln.decode("latin1"), model=lr), found=False)
                     continue
-                if " meta=1" in Bc[nm][1]:
+                if " meta=1" in Bc[nm][1] and (c.std < 7 or c.perm):
                     continue
                 if normalise(Bc[nm][0], idx=True) != normalise(lr, idx=True):
                     viol("model/parse/%s" % lr.split()[0], "correspondence broken (reader): line %r: model parse %s, library %s" % (ln[:200], lr[:300], Bc[nm][0][:300]),
